@@ -203,6 +203,11 @@ fn gen_prune<K: Kmer>(rng: &mut Rng, k: usize, stranded: bool) -> String {
 pub fn gen(rng: &mut Rng, tier: &str) -> String {
     let k = pick_k(rng, tier);
     let stranded = rng.chance(1, 3);
+    if rng.chance(1, 150) {
+        // the pipeline on a read set in which one k-mer is observed more than 65 535 times and its last observations bring new flanks
+        let reads = vec![saturating_read(rng)];
+        return format!("C03 pipe {} {} {} {}", k, stranded as u8, *rng.pick(&[1usize, 2]), show_reads(&reads, rng, false));
+    }
     match rng.below(6) {
         0 => with_graph_kmer!(k, gen_prune, rng, k, stranded),
         1 | 2 => {
